@@ -5,7 +5,8 @@
  * encryption (psAesInitCBC / psAesEncryptCBC) and every byte the PRNG hands out.  Online monitor:
  *   - per key (digest of the key bytes) no nonce is used for two different (AAD || plaintext);
  *   - the write sequence number of a TLS endpoint advances by exactly the number of records it
- *     sealed during each API call (never backwards, never skipped/stalled);
+ *     sealed during each API call (never skipped/stalled), and goes back only together with a new
+ *     key in the write context (a rewind under the same key makes the next record repeat a nonce);
  *   - the first plaintext block of every CBC record (TLS >= 1.1 explicit IV), or the IV given to
  *     psAesInitCBC for one-shot uses (tickets), is PRNG output drawn after the previous CBC record
  *     of that context and never used before - hence not a function of earlier ciphertext;
@@ -118,7 +119,7 @@ void __wrap_psAesEncryptCBC(psAesCbc_t *c, const unsigned char *pt, unsigned cha
 }
 
 /* ------------------------------------------------------------------ workload ---- */
-typedef struct { mx_conn k; long lastSeals[2]; unsigned long long lastSeq[2]; int baselined[2]; } wl_t;
+typedef struct { mx_conn k; long lastSeals[2]; unsigned long long lastSeq[2]; int baselined[2]; uint64_t lastKey[2]; int wasSecure[2]; } wl_t;
 static unsigned long long seq8(const unsigned char *s) { unsigned long long v = 0; for (int i = 0; i < 8; i++) v = (v << 8) | s[i]; return v; }
 static void *enc_ctx(mx_ep *e) { return (void *) &e->ssl->sec.encryptCtx; }
 /* sequence accounting across one harness step: delta(seq) == delta(seals) for TLS endpoints once encrypting */
@@ -127,12 +128,15 @@ static void seq_check(wl_t *w, const char *when)
     for (int r = 0; r < 2; r++) {
         mx_ep *e = r ? &w->k.s : &w->k.c; if (!e->ssl || MX_IS_DTLS(e->ver)) continue;
         cx_t *x = cx_of(enc_ctx(e)); unsigned long long s = seq8(e->ssl->sec.seq); long dseals = x->seals - w->lastSeals[r];
-        if (!(e->ssl->flags & SSL_FLAGS_WRITE_SECURE)) { w->lastSeals[r] = x->seals; w->lastSeq[r] = s; continue; }
-        if (s < w->lastSeq[r]) { vf_stat("write_key_changes_seen", 1); }                       /* sequence restarted with a new key: re-baseline */
+        if (!(e->ssl->flags & SSL_FLAGS_WRITE_SECURE)) { w->lastSeals[r] = x->seals; w->lastSeq[r] = s; w->wasSecure[r] = 0; continue; }
+        if (s < w->lastSeq[r]) {                                                               /* sequence restarted: legitimate only together with a new write key */
+            if (w->wasSecure[r] && w->baselined[r] && x->keyid == w->lastKey[r])
+                report("sequence-rewound-under-same-key", "record-layer", "write sequence number went back %llu -> %llu while the write key stayed the same: the next record repeats a nonce (%s)", w->lastSeq[r], s, when);
+            vf_stat("write_key_changes_seen", 1); }
         else if (dseals == 0 && s != w->lastSeq[r]) report("sequence-advanced-without-record", "record-layer", "write sequence number moved %llu -> %llu although no record with a fresh nonce/IV was sealed (%s)", w->lastSeq[r], s, when);
         else if (dseals > 0 && w->baselined[r] && (s - w->lastSeq[r]) != (unsigned long long) dseals)
             report("sequence-not-advanced-per-record", "record-layer", "%ld records sealed (fresh nonce / fresh explicit IV each) but the write sequence number moved %llu -> %llu (%s)", dseals, w->lastSeq[r], s, when);
-        w->baselined[r] = 1; w->lastSeals[r] = x->seals; w->lastSeq[r] = s;
+        w->baselined[r] = 1; w->lastSeals[r] = x->seals; w->lastSeq[r] = s; w->lastKey[r] = x->keyid; w->wasSecure[r] = 1;
     }
 }
 /* wire-level uniqueness */
@@ -174,7 +178,7 @@ static void run_scn(void *a_)
     vf_stat("cases", 1);
     for (int round = 0; round < (s->resumed ? 2 : 1); round++) {
         if (mx_conn_open(&W.k, &cfg, sid) != 0) { vf_incon("open failed"); return; }
-        memset(W.lastSeals, 0, sizeof W.lastSeals); memset(W.lastSeq, 0, sizeof W.lastSeq); memset(W.baselined, 0, sizeof W.baselined); cbc_in_record_layer = 1; nwires[0] = nwires[1] = 0;
+        memset(W.lastSeals, 0, sizeof W.lastSeals); memset(W.lastSeq, 0, sizeof W.lastSeq); memset(W.baselined, 0, sizeof W.baselined); memset(W.lastKey, 0, sizeof W.lastKey); memset(W.wasSecure, 0, sizeof W.wasSecure); cbc_in_record_layer = 1; nwires[0] = nwires[1] = 0;
         if (round == 1 && s->early && matrixSslGetMaxEarlyData(W.k.c.ssl) > 0) { wl_send(&W, &W.k.c, 200, 500); wl_send(&W, &W.k.c, 1, 501); vf_stat("early_data_connections", 1); }
         if (W.k.dtls) {
             /* handshake in which one whole flight (chosen per scenario/round) is lost once: the waiting side times out
@@ -238,6 +242,132 @@ static void run_scn(void *a_)
     vf_distinct("%d|%04x|%d|%d|%d|%d", s->ver, s->suite, s->resumed, s->ticket, s->ca, s->early);
 }
 
+/* ------------------------------------------------------------------ TLS 1.3 0-RTT corner scenarios ----
+ * A client that has written early data keeps the client_early_traffic key as its write key until its second flight.
+ * Whatever it protects in between (a closure alert of the application, an alert answering bad input) and whatever
+ * happens to its state (HelloRetryRequest, early data rejected or accepted) must not bring a (key, nonce) pair back;
+ * likewise for the server's alerts after a HelloRetryRequest / after rejecting or accepting early data. */
+enum { Z_HRR_CLOSE, Z_HRR_CLOSE_UNSENT, Z_HRR_BADSH, Z_HRR_UNEXPECTED, Z_HRR_BADFLIGHT, Z_HRR_COMPLETE, Z_HRR_SRV_CLOSE,
+       Z_REJ_CLOSE, Z_REJ_BADFLIGHT, Z_REJ_COMPLETE, Z_REJ_SRV_CLOSE,
+       Z_ACC_CLOSE, Z_ACC_BADFLIGHT, Z_ACC_SRV_CLOSE, Z_NKIND };
+static const char *zname[Z_NKIND] = { "hrr-client-closure", "hrr-client-closure-hello2-unsent", "hrr-client-bad-serverhello", "hrr-client-unexpected-message", "hrr-client-bad-protected-record", "hrr-complete", "hrr-server-closure",
+    "rejected-client-closure", "rejected-client-bad-protected-record", "rejected-complete", "rejected-server-closure",
+    "accepted-client-closure", "accepted-client-bad-protected-record", "accepted-server-closure" };
+typedef struct { uint16_t suite; int kind; } zscn_t;
+static void wl_reset(wl_t *w) { memset(w->lastSeals, 0, sizeof w->lastSeals); memset(w->lastSeq, 0, sizeof w->lastSeq); memset(w->baselined, 0, sizeof w->baselined); memset(w->lastKey, 0, sizeof w->lastKey); memset(w->wasSecure, 0, sizeof w->wasSecure); }
+/* as mx_conn_open, plus key-exchange groups: the client's only share is for x25519, the server has secp256r1 alone -> HelloRetryRequest */
+static int z_open(mx_conn *k, const mx_cfg *cfg, sslSessionId_t *sid, int hrr)
+{
+    if (!hrr) return mx_conn_open(k, cfg, sid);
+    memset(k, 0, sizeof *k); k->cfg = *cfg; k->dtls = 0;
+    for (int role = MX_SERVER; role >= MX_CLIENT; role--) {
+        sslSessOpts_t o; mx_opts(&o, cfg, role); mx_ep *e = role == MX_SERVER ? &k->s : &k->c; uint16_t gs[1] = { 23 }, gc[2] = { 29, 23 }; int rc;
+        if ((role == MX_SERVER ? matrixSslSessOptsSetKeyExGroups(&o, gs, 1, 1) : matrixSslSessOptsSetKeyExGroups(&o, gc, 2, 1)) < 0) return -3;
+        memset(e, 0, sizeof *e); e->role = role; e->ver = cfg->ver; e->id = role == MX_SERVER ? 1 : 0; e->name = role == MX_SERVER ? "S" : "C"; mx_actor = e->id;
+        psCipher16_t cs[1] = { cfg->suite }; e->sid = role == MX_CLIENT ? sid : NULL; MX_ENTER();
+        rc = role == MX_SERVER ? matrixSslNewServerSession(&e->ssl, mx_pick_skeys(cfg), NULL, &o)
+                               : matrixSslNewClientSession(&e->ssl, mx_pick_ckeys(cfg), sid, cs, 1, mx_cert_cb_accept, NULL, NULL, NULL, &o);
+        MX_LEAVE(); e->wantTake = 1; if (rc < 0) return role == MX_SERVER ? -1 : -2;
+    }
+    return 0;
+}
+/* deliver up to `max` pending records of direction d (0 = client -> server); output of the receiver stays inside it until the next collect */
+static int z_deliver(wl_t *w, int d, int max, const char *when)
+{
+    mx_conn *k = &w->k; int n = 0; mx_conn_collect(k); seq_check(w, when);
+    while (n < max && k->qoff[d] < k->qlen[d]) {
+        mx_rec r; int len = mx_rec_at(k->q[d], k->qlen[d], k->qoff[d], 0, &r) ? r.hdr + r.len : k->qlen[d] - k->qoff[d]; mx_ep *rcv = d == 0 ? &k->s : &k->c;
+        if (!rcv->dead) mx_feed(rcv, k->q[d] + k->qoff[d], len);
+        k->qoff[d] += len; k->delivered[d]++; n++; seq_check(w, when);
+    }
+    return n;
+}
+static void z_closure(wl_t *w, mx_ep *e, const char *when)
+{
+    long before = n_aead_seals; MX_ENTER(); mx_actor = e->id; int rc = matrixSslEncodeClosureAlert(e->ssl); MX_LEAVE(); e->wantTake = 1;
+    if (vf_verbose) fprintf(stderr, " closure alert on %s rc=%d sealed=%ld seq=%llu\n", e->name, rc, n_aead_seals - before, seq8(e->ssl->sec.seq));
+    vf_stat(n_aead_seals > before ? "zrtt_alerts_sealed_before_second_flight" : "zrtt_alerts_in_plaintext", 1);
+    seq_check(w, when); mx_conn_collect(&w->k); seq_check(w, when);
+}
+static void z_after_bad_input(wl_t *w, mx_ep *e, long before, const char *when)
+{
+    seq_check(w, when); mx_conn_collect(&w->k); seq_check(w, when);
+    if (vf_verbose) fprintf(stderr, " bad input to %s: lastrc=%d dead=%d sealed=%ld seq=%llu\n", e->name, e->lastrc, e->dead, n_aead_seals - before, seq8(e->ssl->sec.seq));
+    if (!e->dead && e->lastrc >= 0 && !e->closeReq) vf_stat("zrtt_bad_input_without_alert", 1);
+    else vf_stat(n_aead_seals > before ? "zrtt_alerts_sealed_before_second_flight" : "zrtt_alerts_in_plaintext", 1);
+}
+static const unsigned char z_hrr_random[8] = { 0xCF, 0x21, 0xAD, 0x74, 0xE5, 0x9A, 0x61, 0x11 };
+static void run_zrtt(void *a_)
+{
+    const zscn_t *z = a_; wl_t W; memset(&W, 0, sizeof W); sslSessionId_t *sid; matrixSslNewSessionId(&sid, NULL);
+    const mx_suite_t *su = mx_suite_by_id(z->suite); cur_ver = MX_TLS13; cur_suite = su->name; mx_entropy_observer = observe_entropy; cbc_in_record_layer = 1;
+    int hrr = z->kind <= Z_HRR_SRV_CLOSE, rej = z->kind >= Z_REJ_CLOSE && z->kind <= Z_REJ_SRV_CLOSE; mx_conn *k = &W.k;
+    mx_cfg cfg = { .ver = MX_TLS13, .suite = z->suite, .earlyData = 16384 };
+    vf_stat("cases", 1); vf_stat("zrtt_corner_scenarios", 1);
+    /* priming connection: leaves a ticket that permits early data in sid */
+    if (mx_conn_open(k, &cfg, sid) != 0) { vf_incon("open failed"); return; }
+    wl_step_all(&W, 300, "handshake"); if (!mx_conn_established(k)) { vf_incon("priming connection did not establish [%s]", cur_desc); return; }
+    wl_send(&W, &k->c, 30, 1); wl_send(&W, &k->s, 30, 2); wl_step_all(&W, 50, "data"); mx_conn_close(k); mx_now += 2;
+    if (z_open(k, &cfg, sid, hrr) != 0) { vf_incon("open failed [%s]", cur_desc); return; }
+    wl_reset(&W);
+    if (matrixSslGetMaxEarlyData(k->c.ssl) <= 0) { vf_incon("the ticket of the priming connection does not permit early data [%s]", cur_desc); return; }
+    int nearly = 1 + (int) ((vf_seed + z->kind) % 3); static const int esz[3] = { 200, 1, 40 };
+    for (int i = 0; i < nearly; i++) wl_send(&W, &k->c, esz[i], 500 + i);
+    if (seq8(k->c.ssl->sec.seq) != (unsigned long long) nearly) { vf_incon("early data was not written [%s]", cur_desc); return; }
+    vf_stat("early_data_connections", 1);
+    if (rej) mx_now += 60;      /* the server's view of the ticket age now differs from the client's claim by more than the window: early data is rejected, the PSK is still good */
+    /* ClientHello -> server */
+    z_deliver(&W, 0, 1, "hello"); mx_conn_collect(k);
+    int isHrr = k->qlen[1] >= 5 + 6 + 8 && k->q[1][0] == 22 && k->q[1][5] == 2 && !memcmp(k->q[1] + 11, z_hrr_random, 8);
+    if (hrr != isHrr) { vf_incon("%s [%s]", hrr ? "the server did not answer with HelloRetryRequest" : "unexpected HelloRetryRequest", cur_desc); return; }
+    if (hrr) {
+        vf_stat("zrtt_helloretryrequest_after_early_data", 1);
+        k->qoff[0] = k->qlen[0];                      /* the early-data records are lost (this server answers them with unexpected_message after a HelloRetryRequest) */
+        if (z->kind == Z_HRR_SRV_CLOSE) { z_closure(&W, &k->s, "closure"); z_deliver(&W, 1, 9, "hello"); goto done; }
+        z_deliver(&W, 1, 9, "hello-retry");           /* HelloRetryRequest -> client; ClientHello2 now waits in its output buffer */
+        if (z->kind == Z_HRR_CLOSE_UNSENT) { z_closure(&W, &k->c, "closure"); goto done; }
+        mx_conn_collect(k); seq_check(&W, "hello2");
+        if (z->kind == Z_HRR_CLOSE) { z_closure(&W, &k->c, "closure"); goto done; }
+        if (z->kind == Z_HRR_UNEXPECTED) {
+            unsigned char f[5 + 4 + 32] = { 22, 3, 3, 0, 36, 20, 0, 0, 32 }; long b = n_aead_seals;
+            mx_feed(&k->c, f, sizeof f); z_after_bad_input(&W, &k->c, b, "alert"); goto done;
+        }
+        z_deliver(&W, 0, 1, "hello2"); mx_conn_collect(k);   /* ClientHello2 -> server, its flight is now queued */
+    } else {
+        z_deliver(&W, 0, 9, "early-data"); mx_conn_collect(k);   /* the early-data records: decrypted (accepted) or skipped (rejected) */
+        int accepted = k->s.ssl->tls13ServerEarlyDataEnabled == PS_TRUE;
+        if (accepted == rej) { vf_incon("early data %s [%s]", accepted ? "accepted although the ticket age is off" : "not accepted", cur_desc); return; }
+        vf_stat(accepted ? "zrtt_early_data_accepted" : "zrtt_early_data_rejected", 1);
+        if (z->kind == Z_REJ_SRV_CLOSE || z->kind == Z_ACC_SRV_CLOSE) { z_closure(&W, &k->s, "closure"); z_deliver(&W, 1, 20, "flight"); goto done; }
+    }
+    if (k->qlen[1] - k->qoff[1] < 5 + 40 || k->q[1][k->qoff[1]] != 22 || k->q[1][k->qoff[1] + 5] != 2) { vf_incon("no ServerHello queued [%s]", cur_desc); return; }
+    if (z->kind == Z_HRR_BADSH) {
+        unsigned char *sh = k->q[1] + k->qoff[1]; int sidl = sh[5 + 4 + 2 + 32]; long b = n_aead_seals;
+        sh[5 + 4 + 2 + 32 + 1 + sidl + 1] ^= 3;       /* another cipher suite than the one of the HelloRetryRequest */
+        z_deliver(&W, 1, 1, "alert"); z_after_bad_input(&W, &k->c, b, "alert"); goto done;
+    }
+    if (z->kind == Z_HRR_COMPLETE || z->kind == Z_REJ_COMPLETE) {
+        wl_step_all(&W, 300, "handshake");
+        if (!mx_conn_established(k)) { vf_incon("scenario did not establish [%s]", cur_desc); return; }
+        vf_stat("connections", 1);
+        for (int i = 0; i < 6; i++) { wl_send(&W, &k->c, 1 + 40 * i, 600 + i); wl_send(&W, &k->s, 3 + 50 * i, 700 + i); if (i % 2) wl_step_all(&W, 50, "data"); }
+        wl_step_all(&W, 50, "data"); z_closure(&W, &k->c, "closure"); wl_step_all(&W, 20, "closure"); z_closure(&W, &k->s, "closure"); wl_step_all(&W, 20, "closure");
+        goto done;
+    }
+    z_deliver(&W, 1, 1, "serverhello");               /* ServerHello alone -> client */
+    if (z->kind == Z_REJ_CLOSE || z->kind == Z_ACC_CLOSE) { z_closure(&W, &k->c, "closure"); z_deliver(&W, 0, 9, "closure"); goto done; }
+    /* *_BADFLIGHT: the first protected record of the server's flight arrives corrupted */
+    { mx_rec r; if (!mx_rec_at(k->q[1], k->qlen[1], k->qoff[1], 0, &r)) { vf_incon("no protected server record queued [%s]", cur_desc); return; }
+      if (r.type == 20) { z_deliver(&W, 1, 1, "ccs"); if (!mx_rec_at(k->q[1], k->qlen[1], k->qoff[1], 0, &r)) { vf_incon("no protected server record queued [%s]", cur_desc); return; } }
+      long b = n_aead_seals; k->q[1][k->qoff[1] + r.hdr + r.len - 1] ^= 1;
+      z_deliver(&W, 1, 1, "alert"); z_after_bad_input(&W, &k->c, b, "alert"); z_deliver(&W, 0, 9, "alert"); }
+done:
+    mx_conn_collect(k); seq_check(&W, "end");
+    mx_conn_close(k); matrixSslDeleteSessionId(sid);
+    vf_stat("aead_seals", n_aead_seals); vf_stat("aead_keys", n_keys); vf_stat("identical_reseals", n_reuse_same); vf_stat("entropy_blocks_tracked", nents);
+    vf_distinct("zrtt|%04x|%d", z->suite, z->kind);
+}
+
 int main(int argc, char **argv)
 {
     vf_init(argc, argv); if (vf_flag("-vv")) vf_verbose = 2; mx_global_init(); mx_keys_load();
@@ -257,6 +387,17 @@ int main(int argc, char **argv)
         if (vf_case && strncmp(vf_case, cur_desc, strchr(cur_desc, '(') - cur_desc)) continue;
         if (i % 17 == 0) vf_sample("%s", cur_desc);
         vf_fork_case(run_scn, &list[i], "c17", cur_desc, 300);
+    }
+    /* TLS 1.3 0-RTT corner scenarios: every kind x every TLS 1.3 suite (both tiers; thorough repeats them with other entropy) */
+    static zscn_t zl[64]; int nz = 0;
+    for (int i = 0; i < MX_NSUITES; i++) if (mx_suites[i].tls13) for (int kd = 0; kd < Z_NKIND; kd++) zl[nz++] = (zscn_t) { mx_suites[i].id, kd };
+    for (int rep = 0; rep < (vf_thorough ? 5 : 1); rep++) for (int i = 0; i < nz; i++) {
+        if (!vf_mine(idx++)) continue;
+        mx_entropy_seed(vf_seed * 257 + i + rep * 1000033 + 77);
+        snprintf(cur_desc, sizeof cur_desc, "zrtt=%d rep=%d (tls1.3 %04x %s)", i, rep, zl[i].suite, zname[zl[i].kind]);
+        if (vf_case && strncmp(vf_case, cur_desc, strchr(cur_desc, '(') - cur_desc)) continue;
+        if (i % 9 == 0) vf_sample("%s", cur_desc);
+        vf_fork_case(run_zrtt, &zl[i], "c17", cur_desc, 120);
     }
     mx_keys_free(); matrixSslClose(); vf_flush();
     return 0;
